@@ -16,8 +16,8 @@ import (
 
 func TestC16(t *testing.T) {
 	col := ev.New("C16", "rapid state machine over memory.Overlay(base, Sparse): base is a Bytes memory built from a "+
-		"random non-overlapping layout or a Sparse memory pre-filled with constant/symbolic stores; then stores (constant "+
-		"or symbolic), loads, Missing and Blocks on the overlay over a 48-byte window. Reference: two byte maps, overlay "+
+		"random non-overlapping layout or a Sparse memory pre-filled with constant/symbolic stores (dense layouts with pieces of up to 250 bytes in the 600-byte windows, so that reads wider than 32 bytes are served by both layers); then stores (constant "+
+		"or symbolic), loads, Missing and Blocks on the overlay over a 48-byte or 600-byte window (widths up to 200 bytes there). Reference: two byte maps, overlay "+
 		"first; base content, base Blocks() and all handed/returned expressions re-compared after every step. "+
 		"non-trivial = a load assembled from >=3 alternating pieces or a Missing query crossing >=2 gaps; distinct by history")
 	defer col.Flush()
